@@ -380,6 +380,10 @@ def gen_scenario(rng, ops=None, force=None):
         dtype = rng.choice(["float32", "int16", "int64"])
         params["window"] = rng.choice([1, 2, 3, T, rng.randint(1, T)])
         params["dtype"] = rng.choice([None, None, None, "float32", "float64", "int32"])
+        if rng.random() < 0.15 and "shape" not in force:
+            # the rolling dimension is a parameter: roll along y instead of time
+            params["dimension"] = "y"
+            params["window"] = rng.randint(1, Y)
         params["nodata_via"] = rng.choice(["attr", "arg"])
         kind = rng.choice(["precip", "smallint"])
     elif op == "zonal_mean":
@@ -415,6 +419,12 @@ def gen_scenario(rng, ops=None, force=None):
         params["n"] = rng.choice([None, 1, 2, 3, rng.randint(1, T)])
         params["begin"] = rng.choice([None, rng.randint(0, T - 1)])
         params["end"] = rng.choice([None, rng.randint(0, T - 1)])
+        if rng.random() < 0.15 and "shape" not in force:
+            # aggregate along y instead of time (begin/end are labels of that dimension)
+            params["dim"] = "y"
+            params["n"] = rng.choice([None, 1, 2, rng.randint(1, Y)])
+            params["begin"] = rng.choice([None, rng.randint(0, Y - 1)])
+            params["end"] = rng.choice([None, rng.randint(0, Y - 1)])
         pattern = "none"
         kind = "smallint" if dtype != "int16" else "precip"
         if dtype.startswith("float") and rng.random() < 0.5:
@@ -732,6 +742,8 @@ def apply_op(scn, cube, lazy, perm=None, aux=None):
             w = p["window"]
             if scn.get("scalar_kind") == "np":
                 w = np.int64(w)
+            if p.get("dimension"):
+                kw["dimension"] = p["dimension"]
             return cube.hdc.rolling.sum(w, **kw)
         if op == "zonal_mean":
             zones = aux["zones"]
@@ -746,12 +758,16 @@ def apply_op(scn, cube, lazy, perm=None, aux=None):
             f = cube.hdc.anom.ratio if p["kind"] == "ratio" else cube.hdc.anom.diff
             return f(ref, offset=p["offset"])
         if op == "iteragg":
-            time, _, _ = cube_coords(scn)
+            time, ycoord, _ = cube_coords(scn)
             kw = {"n": p["n"]}
+            labels = time
+            if p.get("dim"):
+                kw["dim"] = p["dim"]
+                labels = ycoord
             if p["begin"] is not None:
-                kw["begin"] = time[p["begin"]]
+                kw["begin"] = labels[p["begin"]]
             if p["end"] is not None:
-                kw["end"] = time[p["end"]]
+                kw["end"] = labels[p["end"]]
             f = getattr(cube.hdc.iteragg, p["kind"])
             return list(f(**kw))
         if op == "dekad":
